@@ -277,6 +277,59 @@ def assertBinaryEqual (expected actual : Option Bytes) (length : Nat) : Outcome 
   if length = 0 then { fails := false, counted := 1 }
   else cstrCheck (fun e a => memCmp length e a != 0) expected actual
 
+/-! ## the statement list of an assert body (what `translate/extract_asserts_ast.py` regenerates from the typed AST)
+
+`Gen/AssertFns.lean` holds every `UtestShell::assert*` body as `runAssert 0 [stmts]` in source order; `Props/C03.lean`
+proves each of them equal to the hand-written function above for all operands. -/
+
+inductive BodyStmt where
+  | count                    -- `getTestResult()->countCheck();`
+  | retIf (c : Bool)         -- `if (c) return;`
+  | failIf (c : Bool)        -- `if (c) failWith(F(this, …)[, testTerminator]);`  (failWith leaves the test)
+  | failAlways               -- `failWith(…);`
+deriving Repr, DecidableEq, Inhabited
+
+/-- run the statements in order; `n` = how often `countCheck()` ran so far -/
+def runAssert (n : Nat) : List BodyStmt → Outcome
+  | [] => { fails := false, counted := n }
+  | .count :: rest => runAssert (n + 1) rest
+  | .retIf c :: rest => if c then { fails := false, counted := n } else runAssert n rest
+  | .failIf c :: rest => if c then { fails := true, counted := n } else runAssert n rest
+  | .failAlways :: _ => { fails := true, counted := n }
+
+/-- two statements of a macro body in sequence: a failing check leaves the test, so the second statement runs only
+    after a passing (or absent) first one -/
+def seqO (a b : Outcome) : Outcome :=
+  if a.fails then a else { fails := b.fails, counted := a.counted + b.counted }
+
+/- the callees of the assert bodies on `const char*` / block operands (`none` = NULL).  The C functions dereference
+    their arguments: a NULL argument is undefined behaviour, the value chosen here for it (0 / the empty string, which
+    is what `SimpleString(NULL)` really is) is never used by a body that tests for NULL first. -/
+namespace P
+
+def StrCmp : Option Bytes → Option Bytes → Int
+  | some x, some y => Text.cmp x y
+  | _, _ => 0
+
+def StrNCmp : Option Bytes → Option Bytes → BitVec 64 → Int
+  | some x, some y, n => Text.ncmp n.toNat x y
+  | _, _, _ => 0
+
+def MemCmp : Option Bytes → Option Bytes → BitVec 64 → Int
+  | some x, some y, n => memCmp n.toNat x y
+  | _, _, _ => 0
+
+/-- `SimpleString(const char*)`: NULL gives the empty string -/
+def SimpleString : Option Bytes → Bytes
+  | some x => x
+  | none => []
+
+def equalsNoCase (self other : Bytes) : Bool := Text.equalsNoCase self other
+def contains (self other : Bytes) : Bool := Text.isInfix self other
+def containsNoCase (self other : Bytes) : Bool := Text.containsNoCase self other
+
+end P
+
 /-! ## the macros of UtestMacros.h (casts as written in the macro bodies) -/
 
 /-- `CHECK(c)`, `CHECK_TRUE(c)`: `assertTrue((bool)(c))` -/
